@@ -91,3 +91,366 @@ spec("C01",
      rule="all operation sequences of the stated depth; distinct_nontrivial = distinct outcome signatures (hash of handles "
           "returned, cancel results and the order in which events ran); states = distinct abstract queue contents reached",
      assumptions=["start times -5, 0 and 3 stand for 'any start time'"])
+
+
+# ----------------------------------------------------------------------------- DES driver jobs
+def des(name, monitor, bmax, deadline=300, bmin=0, **opts):
+    o = dict(opts)
+    o["monitor"] = monitor
+    return dict(name=name, harness="des", opts=o, bound_min=bmin, bound_max=bmax, deadline=deadline,
+                run_timeout=20)
+
+
+DES_ASSUME = ["process programs are generated by the driver's validity predicate (documented preconditions only)",
+              "durations are drawn from {0,1,2}: coincidences on one instant are forced, other time values are not explored",
+              "deviation bound: executions departing from the canonical script in more than B choices are not explored"]
+DES_NOTE = ("Trusted: the driver (harness/des.c), the monitor for this property (harness/mon_*.inc), the explorer. "
+            "The explored transition system is the real library; nothing is modelled separately.")
+
+
+# ----------------------------------------------------------------------------- C05
+def c05_jobs(tier):
+    ops = "racq0,rrel0,rpre0,hold0,hold1,tadd1,int0,int1,int2,stop1,exit,prio0.2,prio2.0"
+    if tier == "quick":
+        return [
+            des("p3-loop", "mutex", 3, procs=3, prios="0,1,2", budget=4, res=1, ops=ops,
+                script="racq0,hold1,rrel0,racq0"),
+            des("p3-eqprio", "mutex", 3, procs=3, prios="0,0,0", budget=4, res=1, ops=ops,
+                script="racq0,hold1,rrel0,racq0"),
+            des("p3-preempt", "mutex", 3, procs=3, prios="0,1,2", budget=4, res=1, ops=ops,
+                script="rpre0,hold1,rrel0,rpre0"),
+            des("p2-two-resources", "mutex", 3, procs=2, prios="0,1", budget=5, res=2,
+                ops="racq0,rrel0,racq1,rrel1,rpre0,rpre1,hold0,hold1,int0,int1,exit",
+                script="racq0,racq1,hold1,rrel0,rrel1"),
+        ]
+    return [
+        des("p3-loop", "mutex", 4, 1500, procs=3, prios="0,1,2", budget=5, res=1, ops=ops,
+            script="racq0,hold1,rrel0,racq0,hold1"),
+        des("p3-eqprio", "mutex", 4, 1500, procs=3, prios="0,0,0", budget=5, res=1, ops=ops,
+            script="racq0,hold1,rrel0,racq0,hold1"),
+        des("p4-preempt", "mutex", 3, 1500, procs=4, prios="0,1,2,1", budget=4, res=1,
+            ops=ops + ",int3,stop3", script="rpre0,hold1,rrel0,rpre0"),
+        des("p3-two-resources", "mutex", 4, 1500, procs=3, prios="0,1,1", budget=5, res=2,
+            ops="racq0,rrel0,racq1,rrel1,rpre0,rpre1,hold0,hold1,tadd1,int0,int1,int2,stop1,exit",
+            script="racq0,racq1,hold1,rrel0,rrel1"),
+    ]
+
+
+spec("C05", jobs=c05_jobs,
+     technique="explicit-state search over process programs through the real dispatcher (choice-driven interpreters, iterated deviation bound), invariant checked in every reached state",
+     level_text="Three to four simulated processes with a menu of acquire/preempt/release/hold/timer/interrupt/stop/exit/"
+                "priority operations on one or two real cmb_resource objects; every choice sequence within the deviation "
+                "bound is executed on the real library; after every library call and every dispatcher event the monitor "
+                "compares holder, in-use, available, held-by and each process's own record with the holder implied by the "
+                "call history, and flags any second successful acquire.",
+     level_note=DES_NOTE, budget=dict(quick=900, thorough=7200),
+     rule="executions = distinct choice sequences within the deviation bound; distinct_nontrivial = distinct outcome signatures "
+          "(hash of every (process, call, return value, time)); states = distinct canonical library+driver states at observation points",
+     assumptions=DES_ASSUME)
+
+
+# ----------------------------------------------------------------------------- C08
+def c08_jobs(tier):
+    b = 3 if tier == "quick" else 4
+    dl = 300 if tier == "quick" else 1500
+    L = 4 if tier == "quick" else 5
+    return [
+        des("resource", "progress", b, dl, procs=3, prios="0,1,2", budget=L, res=1,
+            ops="racq0,rrel0,rpre0,hold0,hold1,tadd1,int0,int1,int2,stop1,stop0,exit",
+            script="racq0,hold1,rrel0"),
+        des("pool", "progress", b, dl, procs=3, prios="0,1,2", budget=L, pool=3,
+            ops="pacq1,pacq2,ppre2,prel1,prel2,hold0,hold1,tadd1,int0,int1,stop0,stop1,exit",
+            script="pacq2,hold1,prel2"),
+        des("buffer", "progress", b, dl, procs=3, prios="0,1,1", budget=L, buf=3,
+            ops="bput1,bput2,bput5,bget1,bget2,bget5,hold0,hold1,tadd1,int0,int1,stop0,stop1,exit",
+            script0="bput2,hold1,bput2", script1="bget1,hold1,bget2", script2="bget2,bput1"),
+        des("objectqueue", "progress", b, dl, procs=3, prios="0,1,1", budget=L, oq=1,
+            ops="oqput0,oqget,hold0,hold1,tadd1,int0,int1,stop0,stop1,exit",
+            script0="oqput0,oqput0,hold1", script1="oqget,hold1,oqget", script2="oqget,oqput0"),
+        des("priorityqueue", "progress", b, dl, procs=3, prios="0,1,1", budget=L, pq=1,
+            ops="pqput0,pqput1,pqget,pqcancel,hold0,hold1,tadd1,int0,int1,stop0,stop1,exit",
+            script0="pqput0,pqput1,hold1", script1="pqget,hold1,pqget", script2="pqget,pqput0"),
+    ]
+
+
+spec("C08", jobs=c08_jobs,
+     technique="explicit-state search over process programs through the real dispatcher; invariant 'first waiter's demand unsatisfied' evaluated at every instant boundary and at quiescence",
+     level_text="For each guard-based object type, every interleaving (within the deviation bound) of releases/puts/gets with "
+                "arrivals, timeouts, interrupts, preemptions and stops is executed; whenever the clock is about to advance or "
+                "the event queue is empty the monitor evaluates, for every waiting list, the first waiter's own stored demand "
+                "function on the real object: 'true' means a process is parked although it could be served.",
+     level_note=DES_NOTE, budget=dict(quick=1200, thorough=7200),
+     rule="executions = distinct choice sequences within the deviation bound, per object type; distinct_nontrivial = distinct outcome signatures",
+     assumptions=DES_ASSUME)
+
+
+# ----------------------------------------------------------------------------- C04
+C04_OPS = ("hold0,hold1,hold2,tadd1,tadd2u,tset1,tcancel0,tclear,yield,resume0,resume1s,waitp0,waitp1,"
+           "int0,int1,int1h,stop0,stop1,stopself,exit,evsched1,waite0,evcancel0")
+
+
+def c04_jobs(tier):
+    b = 3 if tier == "quick" else 4
+    dl = 300 if tier == "quick" else 1800
+    jobs = [
+        des("core-p2", "notif", b, dl, procs=2, prios="0,0", budget=3 if tier == "quick" else 4, ops=C04_OPS,
+            script0="hold1,hold1", script1="hold2,hold1"),
+        des("core-p2-prio", "notif", b, dl, procs=2, prios="1,0", budget=3, ops=C04_OPS,
+            script0="tadd1,hold2", script1="waitp0,hold1"),
+        des("guards-p3", "notif", b, dl, procs=3, prios="0,1,0", budget=3, res=1, pool=2, buf=2, oq=1, pq=1, cond=1,
+            ops="hold0,hold1,tadd1,racq0,rpre0,rrel0,pacq1,pacq2,ppre1,prel1,bput1,bput3,bget1,bget3,oqput0,oqget,"
+                "pqput0,pqget,cwait0,csig,setx1,int0,int1,int2,stop1,exit",
+            script0="racq0,hold1,rrel0", script1="tadd1,racq0,hold1", script2="tadd1,bget1,hold1"),
+        des("growth-p2", "notif", 2, dl, procs=2, prios="0,0", budget=3, ops=C04_OPS, preload=7,
+            script0="hold1,hold1", script1="hold2,hold1"),
+    ]
+    if tier != "quick":
+        jobs.append(des("core-p3", "notif", 3, dl, procs=3, prios="0,0,1", budget=3,
+                        ops=C04_OPS + ",waitp2,int2,stop2,resume2", script0="hold1,hold1", script1="hold2,hold1",
+                        script2="waitp0,hold1"))
+    return jobs
+
+
+spec("C04", jobs=c04_jobs,
+     technique="explicit-state search over process programs through the real dispatcher; reference model = per-process set of undelivered notifications, checked at every return of a blocking call, every instant boundary and at quiescence",
+     level_text="Two or three simulated processes choose among hold, timers (add/set/cancel/clear), yield/resume, wait-for-process, "
+                "wait-for-event, interrupts, stops, exit and one blocking call per guard type; all choice sequences within the "
+                "deviation bound run on the real library. The monitor keeps, per process, the set of undelivered notifications "
+                "(timers, interrupts, resumes, preemptions, cancellations, 'awaited thing happened') and checks: hold success at "
+                "start+d exactly (R1); every other return is justified by exactly one notification due now (R2/R3); after a return "
+                "nothing of the finished call is left behind - pending events, queue memberships, registrations (R4); nobody is "
+                "left suspended past the instant in which what it waits for happened (R5).",
+     level_note=DES_NOTE + " Latitude: several notifications due in one instant may be delivered in any order; timers and "
+                "other pending notifications become optional once an interrupt or preemption has been delivered.",
+     budget=dict(quick=1500, thorough=7200),
+     rule="executions = distinct choice sequences within the deviation bound; distinct_nontrivial = distinct outcome signatures",
+     assumptions=DES_ASSUME + ["a second cmb_process_resume() to a process that has an undelivered resume is treated as an invalid program"])
+
+
+# ----------------------------------------------------------------------------- C06
+def c06_jobs(tier):
+    b = 3 if tier == "quick" else 4
+    dl = 200 if tier == "quick" else 1200
+    common = "hold0,hold1,tadd1,int0,int1,int2,stop1,prio0.2,prio1.0,prio2.1,exit"
+    jobs = [
+        des("resource", "order", b, dl, procs=4, prios="0,1,2,1", budget=3, res=1,
+            ops="racq0,rrel0," + common + ",int3,prio3.2", script="racq0,hold1,rrel0"),
+        des("resource-extremes", "order", 2, dl, procs=4, prios="-9223372036854775808,0,9223372036854775807,0",
+            budget=3, res=1, ops="racq0,rrel0,hold0,hold1,int1", script="racq0,hold1,rrel0"),
+        des("pool", "order", b, dl, procs=4, prios="0,1,2,1", budget=3, pool=2,
+            ops="pacq1,pacq2,prel1,prel2," + common, script="pacq2,hold1,prel2"),
+        des("buffer", "order", b, dl, procs=4, prios="0,1,2,1", budget=3, buf=2,
+            ops="bput1,bput2,bget1,bget2," + common, script0="bput2,hold1,bput2", script1="bget1,hold1",
+            script2="bget2,hold1", script3="bget1,bput1"),
+        des("objectqueue", "order", b, dl, procs=4, prios="0,1,2,1", budget=3, oq=1,
+            ops="oqput0,oqget," + common, script0="oqput0,hold1,oqput0", script1="oqget,hold1",
+            script2="oqget,hold1", script3="oqget,oqput0"),
+        des("priorityqueue", "order", b, dl, procs=4, prios="0,1,2,1", budget=3, pq=1,
+            ops="pqput0,pqput1,pqget," + common, script0="pqput0,hold1,pqput1", script1="pqget,hold1",
+            script2="pqget,hold1", script3="pqget,pqput0"),
+        des("condition", "order", b, dl, procs=4, prios="0,1,2,1", budget=3, cond=1,
+            ops="cwait0,cwait1,csig,setx1,setx2,setx0," + common, script0="hold1,setx2,csig", script1="cwait0,hold1",
+            script2="cwait1,hold1", script3="cwait0,hold1"),
+        des("ramp9", "order", 1, dl, procs=6, prios="0,1,2,1,0,2", budget=2, res=1,
+            ops="racq0,rrel0,hold1,hold2,prio0.2,prio4.1", script="racq0,hold1"),
+    ]
+    return jobs
+
+
+spec("C06", jobs=c06_jobs,
+     technique="explicit-state search over process programs through the real dispatcher; ordering invariant evaluated at every step in which a waiter leaves a waiting list",
+     level_text="Per guard type (resource, pool, buffer ends, object queue, priority queue, condition) four to six processes with "
+                "priorities from {0,1,2} and the int64 extremes arrive in the same or different instants, leave by grant, timeout, "
+                "interrupt, stop, and change priorities while waiting. The monitor snapshots every waiting list after every call "
+                "and event; when a suspended process leaves a list because it was served, no process that stays behind may have a "
+                "higher current priority, or equal priority and an earlier start of waiting (the monitor's own observation); "
+                "processes served by one signal must return in that order; after a priority change the list entry carries the new priority.",
+     level_note=DES_NOTE + " Latitude: equal priority and equal start time - any order; a waiter that re-queues inside a greedy "
+                "multi-step call starts a new stay; for conditions only waiters woken by the same signal are compared.",
+     budget=dict(quick=1500, thorough=7200),
+     rule="executions = distinct choice sequences within the deviation bound, per guard type; distinct_nontrivial = distinct outcome signatures",
+     assumptions=DES_ASSUME)
+
+
+# ----------------------------------------------------------------------------- C07
+def c07_jobs(tier):
+    b = 3 if tier == "quick" else 4
+    dl = 300 if tier == "quick" else 1800
+    ops = "pacq1,pacq2,pacq3,ppre1,ppre2,prel1,prel2,hold0,hold1,tadd1,int0,int1,int2,stop0,exit,prio0.2,prio2.0"
+    jobs = [
+        des("cap3-p3", "pool", b, dl, procs=3, prios="0,1,2", budget=4, pool=3, ops=ops, script="pacq2,hold1,prel2"),
+        des("cap3-p3-preempt", "pool", b, dl, procs=3, prios="0,1,2", budget=4, pool=3, ops=ops,
+            script0="pacq2,hold1,prel2", script1="pacq1,hold1,ppre2", script2="hold1,ppre3,hold1"),
+        des("cap2-eqprio", "pool", b, dl, procs=3, prios="1,1,1", budget=4, pool=2, ops=ops, script="pacq1,hold1,pacq1,prel2"),
+    ]
+    if tier != "quick":
+        jobs.append(des("cap4-p4", "pool", 3, dl, procs=4, prios="0,1,2,3", budget=4, pool=4,
+                        ops=ops + ",pacq4,ppre3,int3,stop3", script="pacq2,hold1,prel2"))
+    return jobs
+
+
+spec("C07", jobs=c07_jobs,
+     technique="explicit-state search over process programs through the real dispatcher; conservation and exact-accounting invariants in every reached state",
+     level_text="Three or four processes with distinct, equal and changing priorities acquire/preempt/release amounts 1-3 of a pool of "
+                "capacity 2-4, with timeouts, interrupts, stops and exits landing inside multi-step acquisitions. After every call and "
+                "event: in_use = sum of holdings <= capacity, available = capacity - in_use; success adds exactly n, an interrupted call "
+                "leaves the old holding, release subtracts exactly n, preempted/ended processes hold nothing; units only ever leave a "
+                "suspended process through a preempt call of a strictly higher-priority process, and the victim must get PREEMPTED "
+                "before the clock advances.",
+     level_note=DES_NOTE, budget=dict(quick=1500, thorough=7200),
+     rule="executions = distinct choice sequences within the deviation bound; distinct_nontrivial = distinct outcome signatures",
+     assumptions=DES_ASSUME)
+
+
+# ----------------------------------------------------------------------------- C09
+def c09_jobs(tier):
+    b = 3 if tier == "quick" else 4
+    dl = 300 if tier == "quick" else 1800
+    ops = ("hold0,hold1,tadd1,tadd2,racq0,rrel0,pacq1,pacq2,prel1,waitp0,waitp1,waitp2,stop0,stop1,stop2,stopself,exit,"
+           "return,int0,int1,start0,start1,yield,bget1,cwait0,oqget")
+    return [
+        des("mix-p3", "endoflife", b, dl, procs=3, prios="0,1,0", budget=4, res=1, pool=2, buf=1, oq=1, cond=1, ops=ops,
+            script0="racq0,pacq1,tadd2,hold1", script1="waitp0,hold1", script2="waitp0,hold1"),
+        des("blocked-p3", "endoflife", b, dl, procs=3, prios="0,0,1", budget=3, res=1, pool=2, buf=1, oq=1, cond=1, ops=ops,
+            script0="racq0,hold2", script1="racq0,hold1", script2="hold1,stop1,start1"),
+        des("selfstop-p2", "endoflife", b, dl, procs=2, prios="0,0", budget=4, res=1, pool=2, ops=ops,
+            script0="racq0,pacq2,tadd1,stopself", script1="waitp0,racq0,hold1"),
+    ]
+
+
+spec("C09", jobs=c09_jobs,
+     technique="explicit-state search over process programs through the real dispatcher; end-of-life postconditions checked in the state right after every end and at the boundary of that instant",
+     level_text="A process is driven into every state named by the property (holding a resource and pool units, blocked in each kind "
+                "of wait, timers armed, wake-ups pending, 0-2 waiters) and ended by return, exit, stop-by-other and stop-self, then "
+                "optionally restarted. The monitor checks: every waiter returns once, at that instant, with SUCCESS or STOPPED as the "
+                "route demands; nothing is held or queued by the ended process, no event addressed to it survives, status FINISHED "
+                "and exit value as given; what it held is passed on within the instant; it never runs again unless restarted, and a "
+                "restart enters the function from the top with empty lists.",
+     level_note=DES_NOTE, budget=dict(quick=1500, thorough=7200),
+     rule="executions = distinct choice sequences within the deviation bound; distinct_nontrivial = distinct outcome signatures",
+     assumptions=DES_ASSUME)
+
+
+# ----------------------------------------------------------------------------- C11
+def c11_jobs(tier):
+    b = 3 if tier == "quick" else 4
+    dl = 300 if tier == "quick" else 1500
+    ops = "bput1,bput2,bput5,bget0,bget1,bget2,bget5,hold0,hold1,tadd1,int0,int1,int2,int3,stop0,stop2,exit"
+    jobs = [
+        des("cap3", "buffer", b, dl, procs=4, prios="0,0,1,1", budget=3, buf=3, ops=ops,
+            script0="bput2,hold1,bput5", script1="bput5,hold1", script2="bget1,hold1,bget5", script3="bget5,hold1"),
+        des("cap1", "buffer", b, dl, procs=4, prios="0,1,0,1", budget=3, buf=1, ops=ops,
+            script0="bput2,hold1,bput1", script1="bput1,hold1", script2="bget2,hold1,bget1", script3="bget1,hold1"),
+        des("unlimited", "buffer", b, dl, procs=3, prios="0,0,1", budget=3, buf="max",
+            ops="bput1,bput5,bput0m,bget1,bget5,bget0m,hold1,tadd1,int0,int1,int2,exit",
+            script0="bput0m,hold1,bput5", script1="bget5,hold1", script2="bget0m,hold1"),
+    ]
+    return jobs
+
+
+spec("C11", jobs=c11_jobs,
+     technique="explicit-state search over process programs through the real dispatcher; every level change attributed to the call in progress, accounting checked at every return",
+     level_text="Two producers and two consumers with amounts {0,1,2,5 (> capacity), 2^64-2} on buffers of capacity 1, 3 and unlimited, "
+                "with timeouts, interrupts and stops between partial transfers. Every change of the real level between two observation "
+                "points is attributed to the put/get in progress of the process that ran; at each return the attributed total must equal "
+                "the request (SUCCESS) or what the out-parameter reports (interrupted); 0 <= level <= capacity throughout.",
+     level_note=DES_NOTE, budget=dict(quick=1500, thorough=7200),
+     rule="executions = distinct choice sequences within the deviation bound; distinct_nontrivial = distinct outcome signatures",
+     assumptions=DES_ASSUME)
+
+
+# ----------------------------------------------------------------------------- C12
+def c12_jobs(tier):
+    b = 3 if tier == "quick" else 4
+    dl = 300 if tier == "quick" else 1500
+    oops = "oqput0,oqput0n,oqput0d,oqget,hold0,hold1,tadd1,int0,int1,int2,int3,stop0,stop2,exit"
+    pops = "pqput0,pqput1,pqput-1,pqget,pqcancel,pqreprio2,pqreprio-2,hold0,hold1,tadd1,int0,int1,int2,int3,stop0,stop2,exit"
+    jobs = []
+    for cap in ("1", "2", "max"):
+        jobs.append(des("objectqueue-cap" + cap, "queue", b, dl, procs=4, prios="0,0,1,1", budget=3, oq=cap, ops=oops,
+                        script0="oqput0,oqput0n,hold1", script1="oqput0d,hold1,oqput0", script2="oqget,hold1,oqget",
+                        script3="oqget,oqget"))
+        jobs.append(des("priorityqueue-cap" + cap, "queue", b, dl, procs=4, prios="0,0,1,1", budget=3, pq=cap, ops=pops,
+                        script0="pqput0,pqput1,hold1", script1="pqput-1,pqreprio2,pqput1", script2="pqget,hold1,pqget",
+                        script3="pqget,pqget"))
+    return jobs
+
+
+spec("C12", jobs=c12_jobs,
+     technique="explicit-state search over process programs through the real dispatcher against a reference list model (FIFO / priority+put order), compared at every return and observation",
+     level_text="Two producers and two consumers on object queues and priority queues of capacity 1, 2 and unlimited, objects including "
+                "NULL and a duplicate, priorities {-1,0,1}, reprioritise/cancel by handle, blocking on both ends, timeouts, interrupts "
+                "and stops of blocked parties. Reference model = a list; every successful get must deliver the model's head, a failed "
+                "get must deliver nothing, length/space/position queries must agree with the model after every call and event.",
+     level_note=DES_NOTE, budget=dict(quick=1500, thorough=7200),
+     rule="executions = distinct choice sequences within the deviation bound, per queue type and capacity; distinct_nontrivial = distinct outcome signatures",
+     assumptions=DES_ASSUME)
+
+
+# ----------------------------------------------------------------------------- C13
+def c13_jobs(tier):
+    b = 3 if tier == "quick" else 4
+    dl = 300 if tier == "quick" else 1500
+    ops = ("cwait0,cwait1,cwait2,cwait3,csig,setx0,setx1,setx2,ccancel1,ccancel2,cremove1,cremove2,racq0,rrel0,"
+           "hold0,hold1,tadd1,int1,int2,stop2,exit")
+    jobs = [
+        des("explicit", "condition", b, dl, procs=4, prios="0,1,2,1", budget=4, cond=1, res=1, ops=ops,
+            script0="hold1,setx1,csig,setx2", script1="cwait0,hold1", script2="cwait1,hold1", script3="cwait2,hold1"),
+        des("forwarded-register", "condition", b, dl, procs=4, prios="0,1,2,1", budget=4, cond=1, res=1, ops=ops,
+            subscribe="res", script0="racq0,hold1,rrel0", script1="cwait3,hold1", script2="cwait3,hold1", script3="cwait0,hold1"),
+        des("forwarded-subscribe", "condition", b, dl, procs=3, prios="0,1,2", budget=4, cond=1, res=1, ops=ops,
+            subscribe="csub", script0="racq0,hold1,rrel0", script1="cwait3,hold1", script2="cwait3,hold1"),
+        des("forwarded-pool", "condition", b, dl, procs=3, prios="0,1,2", budget=4, cond=1, pool=2,
+            ops="cwait4,cwait0,csig,setx1,pacq1,pacq2,prel1,prel2,hold1,tadd1,int1,exit", subscribe="pool",
+            script0="pacq2,hold1,prel2", script1="cwait4,hold1", script2="cwait4,hold1"),
+    ]
+    return jobs
+
+
+spec("C13", jobs=c13_jobs,
+     technique="explicit-state search over process programs through the real dispatcher; at every signal point the monitor evaluates every waiter's predicate itself and compares with who was woken",
+     level_text="One condition with 2-3 waiters whose predicates are drawn from {X>=1, X>=2, X==0, 'resource free', 'pool has >=2'}, "
+                "state changes, explicit signals, signals forwarded from an observed resource / pool guard (both registration "
+                "routes), cancel and remove by name, timeouts/interrupts/stops of waiters. At each explicit or forwarded signal the "
+                "monitor evaluates every waiter's predicate: satisfied waiters must be taken off the queue and return SUCCESS within the "
+                "instant, unsatisfied ones must stay; every SUCCESS/CANCELLED return must be justified; cancel/remove must take out "
+                "exactly the named process.",
+     level_note=DES_NOTE, budget=dict(quick=1500, thorough=7200),
+     rule="executions = distinct choice sequences within the deviation bound; distinct_nontrivial = distinct outcome signatures",
+     assumptions=DES_ASSUME)
+
+
+# ----------------------------------------------------------------------------- C14
+def c14_jobs(tier):
+    b = 3 if tier == "quick" else 4
+    dl = 300 if tier == "quick" else 1500
+    return [
+        des("resource", "history", b, dl, procs=3, prios="0,1,2", budget=4, res=1,
+            ops="recon,recoff,racq0,rrel0,rpre0,hold0,hold1,tadd1,int0,int1,stop0,exit",
+            script0="recon,racq0,hold1,rrel0", script1="hold1,racq0,hold1,recoff", script2="hold2,rpre0,hold1"),
+        des("pool", "history", b, dl, procs=3, prios="0,1,2", budget=4, pool=3,
+            ops="recon,recoff,pacq1,pacq2,ppre2,prel1,prel2,hold0,hold1,tadd1,int0,int1,stop0,exit",
+            script0="recon,pacq2,hold1,prel2", script1="hold1,pacq2,hold1,recoff", script2="hold2,ppre2,hold1"),
+        des("buffer", "history", b, dl, procs=3, prios="0,1,1", budget=4, buf=3,
+            ops="recon,recoff,bput1,bput2,bput5,bget1,bget2,bget5,hold0,hold1,tadd1,int0,int1,stop0,exit",
+            script0="recon,bput2,hold1,bput5", script1="bget1,hold1,bget5,recoff", script2="hold1,bget2"),
+        des("objectqueue", "history", b, dl, procs=3, prios="0,1,1", budget=4, oq=2,
+            ops="recon,recoff,oqput0,oqget,hold0,hold1,tadd1,int0,int1,stop0,exit",
+            script0="recon,oqput0,oqput0,oqput0", script1="hold1,oqget,hold1,recoff", script2="hold1,oqget"),
+        des("priorityqueue", "history", b, dl, procs=3, prios="0,1,1", budget=4, pq=2,
+            ops="recon,recoff,pqput0,pqput1,pqget,pqcancel,hold0,hold1,tadd1,int0,int1,stop0,exit",
+            script0="recon,pqput0,pqput1,pqcancel", script1="hold1,pqget,hold1,recoff", script2="hold1,pqget"),
+    ]
+
+
+spec("C14", jobs=c14_jobs,
+     technique="explicit-state search over process programs through the real dispatcher; the monitor records the true trajectory at every observation point and compares it with the recorded history when recording stops",
+     level_text="For each recordable object type, recording is switched on and off at chosen instants while acquire/release/preempt/"
+                "put/get/cancel, rollbacks of interrupted acquisitions, drops on stop/exit and several changes per instant happen. "
+                "The monitor samples the true value after every call and event; when recording stops (or at the end) the history must "
+                "have non-decreasing times inside the interval, only values the object actually went through, the same value as the "
+                "truth at the end of every instant, and a time-weighted mean equal to the exact time average (1e-12).",
+     level_note=DES_NOTE + " Latitude: a change undone within the same instant needs no sample of its own; one recording interval per execution.",
+     budget=dict(quick=1500, thorough=7200),
+     rule="executions = distinct choice sequences within the deviation bound, per object type; distinct_nontrivial = distinct outcome signatures",
+     assumptions=DES_ASSUME)
